@@ -835,6 +835,192 @@ impl<'a> Gen<'a> {
 // The property
 // ------------------------------------------------------------------------------------------
 
+// ------------------------------------------------------------------------------------------
+// Extreme register states: no literal gives a \count of -2^31 or a \dimen beyond +-(2^30-1)sp,
+// but \advance wraps silently, so chains of \advance (and \multiply) reach every 32-bit value.
+// ------------------------------------------------------------------------------------------
+
+const EXTREMES: &[i64] = &[-2147483648, -2147483647, 2147483647, 1073741824, -1073741824, 1073741823, -1073741823];
+
+/// Terms `|x| <= lim` whose sum is `t` modulo 2^32 (the wrap may go either way round).
+fn decompose(t: i64, lim: i64, rng: &mut Rng) -> Vec<i64> {
+    let goal = match rng.below(4) {
+        0 => t + (1i64 << 32),
+        1 => t - (1i64 << 32),
+        _ => t,
+    };
+    let mut terms = vec![];
+    let mut r = goal;
+    while r.abs() > lim {
+        let step = if r > 0 { lim } else { -lim };
+        terms.push(step);
+        r -= step;
+    }
+    terms.push(r);
+    // the order of the summands is irrelevant: vary it
+    let n = terms.len();
+    for i in (1..n).rev() {
+        terms.swap(i, rng.below(i as u64 + 1) as usize);
+    }
+    terms
+}
+
+/// Statements that drive `\count1` to `t` (literal range +-(2^31-1)).
+fn drive_count(t: i64, rng: &mut Rng) -> Vec<String> {
+    let half = t % 2 == 0 && rng.chance(1, 4);
+    let terms = decompose(if half { t / 2 } else { t }, 2147483647, rng);
+    let mut v = vec![format!("\\count1={} ", terms[0])];
+    for x in &terms[1..] {
+        v.push(format!("\\advance\\count1 by {x} "));
+    }
+    if half {
+        v.push("\\multiply\\count1 by 2 ".into());
+    }
+    if rng.chance(1, 6) && t % 2 == 0 {
+        // by itself: x + x
+        let terms = decompose(t / 2, 2147483647, rng);
+        v = vec![format!("\\count1={} ", terms[0])];
+        for x in &terms[1..] {
+            v.push(format!("\\advance\\count1 by {x} "));
+        }
+        v.push("\\advance\\count1 by \\count1 ".into());
+    }
+    v
+}
+
+/// Statements that drive `\dimen0` to `t` sp (literal range +-(2^30-1)sp).
+fn drive_dimen(t: i64, rng: &mut Rng) -> Vec<String> {
+    let how = rng.below(6);
+    let inner = if how < 2 && t % 2 == 0 { t / 2 } else { t };
+    let terms = decompose(inner, 1073741823, rng);
+    let mut v = vec![format!("\\dimen0={}sp ", terms[0])];
+    for x in &terms[1..] {
+        v.push(format!("\\advance\\dimen0 by {x}sp "));
+    }
+    if inner != t {
+        v.push(if how == 0 { "\\advance\\dimen0 by \\dimen0 ".to_string() } else { "\\multiply\\dimen0 by 2 ".to_string() });
+    }
+    v
+}
+
+/// A component amount as literals: scaled points for a finite order; for an infinite order the
+/// amounts are `16383.99999fil` (2^30-1 units) and `0.00002fil` (1 unit) — the remainders of
+/// the extreme values are at most a few units.
+fn amount_terms(t: i64, ord: &str, rng: &mut Rng) -> Vec<String> {
+    let mut v = vec![];
+    for x in decompose(t, 1073741823, rng) {
+        if ord == "sp" {
+            v.push(format!("{x}sp"));
+        } else if x.abs() == 1073741823 {
+            v.push(format!("{}16383.99999{ord}", if x < 0 { "-" } else { "" }));
+        } else if x.abs() <= 8 {
+            for _ in 0..x.abs() {
+                v.push(format!("{}0.00002{ord}", if x < 0 { "-" } else { "" }));
+            }
+        } else {
+            // not needed for the extreme values; nearest multiple of a unit that can be written
+            v.push(format!("{}{}.0{ord}", if x < 0 { "-" } else { "" }, x.abs() / 65536));
+        }
+    }
+    if v.is_empty() {
+        v.push(format!("0{ord}"));
+    }
+    v
+}
+
+/// Statements that drive the three components of `\skip0` to (w, st, sh) units, stretch and
+/// shrink in the given orders ("sp", "fil", "fill", "filll").
+fn drive_skip(w: i64, st: i64, sh: i64, ost: &str, osh: &str, rng: &mut Rng) -> Vec<String> {
+    let (a, b, c) = (amount_terms(w, "sp", rng), amount_terms(st, ost, rng), amount_terms(sh, osh, rng));
+    let n = a.len().max(b.len()).max(c.len());
+    let at = |v: &Vec<String>, i: usize, ord: &str| v.get(i).cloned().unwrap_or_else(|| format!("0{ord}"));
+    (0..n)
+        .map(|i| {
+            let body = format!("{} plus {} minus {} ", at(&a, i, "sp"), at(&b, i, ost), at(&c, i, osh));
+            if i == 0 {
+                format!("\\skip0={body}")
+            } else {
+                format!("\\advance\\skip0 by {body}")
+            }
+        })
+        .collect()
+}
+
+/// Uses of the registers: `{C}` = `\count1`, `{D}` = `\dimen0`, `{S}` = `\skip0`.
+/// (No `\newIntArray{C}` and no `\sleep{C}`: 2^30 elements / milliseconds.)
+const USES: &[&str] = &[
+    // arithmetic on the register itself
+    "\\divide{R} by -1 ", "\\divide{R} by 0 ", "\\divide{R} by 1 ", "\\divide{R} by 2 ", "\\divide{R} by -2147483647 ", "\\divide{R} by {C} ",
+    "\\divide{R} by -{C} ", "\\multiply{R} by -1 ", "\\multiply{R} by 2 ", "\\multiply{R} by 0 ", "\\multiply{R} by 1 ", "\\multiply{R} by 2147483647 ",
+    "\\multiply{R} by -2147483647 ", "\\multiply{R} by {C} ", "\\advance{R} by {R} ", "\\advance{R} by -{R} ", "\\global\\divide{R} by -1 ",
+    "\\advance{C} by 1 ", "\\advance{C} by -1 ", "\\advance{C} by 2147483647 ", "\\advance{C} by -2147483647 ", "\\advance{C} by {D} ",
+    "\\advance{D} by 1sp ", "\\advance{D} by -1sp ", "\\advance{D} by 1073741823sp ", "\\advance{D} by -1073741823sp ", "\\advance{D} by {C}sp ",
+    "\\advance{D} by {C}{D} ", "\\advance{D} by {S} ", "\\advance{S} by 1sp plus 1sp minus 1sp ", "\\advance{S} by -1sp plus -1sp minus -1sp ",
+    "\\advance{S} by {D} plus {D} minus {D} ", "\\advance{S} by 1073741823sp plus 16383fil minus 16383fill ", "\\advance{S} by 0pt plus 1fil ",
+    // scanning: coefficient, unit, negation, coercion
+    "\\dimen3={C}{D} ", "\\dimen3={C}\\dimen2 ", "\\dimen3=\\count2{D} ", "\\dimen3=2{D} ", "\\dimen3=0.5{D} ", "\\dimen3=1.99999{D} ", "\\dimen3=0.99999{C} ",
+    "\\dimen3=-{D} ", "\\dimen3=--{D} ", "\\dimen3={D} ", "\\dimen3={S} ", "\\dimen3=-{S} ", "\\dimen3={C}sp ", "\\dimen3={C}pt ", "\\dimen3=-{C}sp ",
+    "\\dimen3=1{C} ", "\\dimen3=1{S} ", "\\dimen3={C}{S} ", "\\dimen3={C}true pt ", "\\dimen3={C}em ", "\\dimen3=-.5{S} ", "\\dimen3=16383.99999{D} ",
+    "\\skip3={S} ", "\\skip3=-{S} ", "\\skip3={D} plus {D} minus {D} ", "\\skip3=-{D} plus -{D} minus -{D} ", "\\skip3=1pt plus {C}fil minus {C}fill ",
+    "\\skip3=0pt plus 1{S} ", "\\skip3={C}{S} ", "\\skip3=0pt plus {C}{D} ", "\\skip3=0pt plus -{C}filll ", "\\skip3={C}{D} plus {C}{D} minus {C}{D} ",
+    "\\count3={C} ", "\\count3=-{C} ", "\\count3={D} ", "\\count3=-{D} ", "\\count3={S} ", "\\count3=-{S} ", "\\count3=--{C} ",
+    "\\the{C} ", "\\the{D} ", "\\the{S} ",
+    // comparisons and case selection
+    "\\ifnum{C}<0 a\\else b\\fi ", "\\ifnum{C}=-{C} a\\fi ", "\\ifnum{D}>{C} a\\fi ", "\\ifnum-{D}<{S} a\\fi ", "\\ifnum{S}={S} a\\fi ", "\\ifodd{C} a\\fi ",
+    "\\ifodd{D} a\\fi ", "\\ifodd-{S} a\\fi ", "\\ifodd-{C} a\\fi ", "\\ifcase{C} a\\or b\\else c\\fi ", "\\ifcase{D} a\\or b\\else c\\fi ", "\\ifcase-{C} a\\or b\\fi ",
+    "\\ifcase{S} a\\or b\\fi ", "\\ifcase{C} a",
+    // register indices and stream numbers
+    "\\count{C}=1 ", "\\dimen{D}=1pt ", "\\skip{S}=1pt ", "\\toks{C}={} ", "\\the\\count{C} ", "\\the\\toks{D} ", "\\openin{C}=a ", "\\ifeof{C} a\\fi ", "\\closein{D} ",
+    "\\read{C} to\\x ", "\\J{C}=1 ", "\\the\\J{D} ", "\\countdef\\X={C} ", "\\toksdef\\T={D} ", "\\advance\\count{C} by {C} ",
+    // character codes and other integer parameters
+    "\\catcode{C}=12 ", "\\catcode`a={C} ", "\\mathcode{C}=1 ", "\\mathcode`a={C} ", "\\chardef\\C={C} \\C", "\\mathchardef\\M={D} \\the\\M", "\\endlinechar={C} a\n b",
+    "\\tracingmacros={C} \\def\\a{}\\a", "\\globaldefs={C} \\count3=1 ", "\\year={C} \\the\\year ", "\\the\\catcode{C} ", "\\the\\mathcode{D} ", "\\dumpFormat={C} ",
+    "\\catcode{D}={S} ", "\\endlinechar={D} a\n b", "\\time={S} \\the\\time ",
+];
+
+/// Programs (as statement lists): for every register kind (count, dimen, each component of a
+/// skip) and every extreme value, a preamble that drives the register there (the other
+/// registers get random values, extreme half of the time), then every use that mentions it.
+fn extreme_programs(rng: &mut Rng, rounds: usize) -> Vec<Vec<String>> {
+    let mut out = vec![];
+    let small: &[i64] = &[0, 1, -1, 2, 5, -7, 65536, 255, 32767];
+    for _ in 0..rounds {
+        for kind in ["C", "D", "Sw", "Sst", "Ssh"] {
+            for &t in EXTREMES {
+                for u in USES {
+                    let reg = if kind.starts_with('S') { "{S}" } else if kind == "C" { "{C}" } else { "{D}" };
+                    // `{R}` stands for the register under test
+                    if !(u.contains("{R}") || u.contains(reg)) {
+                        continue;
+                    }
+                    let mut other = |rng: &mut Rng| if rng.chance(1, 2) { *rng.pick(EXTREMES) } else { *rng.pick(small) };
+                    let c = if kind == "C" { t } else { other(rng) };
+                    let d = if kind == "D" { t } else { other(rng) };
+                    let w = if kind == "Sw" { t } else { other(rng) };
+                    let st = if kind == "Sst" { t } else { other(rng) };
+                    let sh = if kind == "Ssh" { t } else { other(rng) };
+                    let mut parts = vec!["\\count2=2 \\dimen2=1sp \\newIntArray\\J 3 ".to_string()];
+                    parts.extend(drive_count(c, rng));
+                    parts.extend(drive_dimen(d, rng));
+                    let ords = ["sp", "sp", "sp", "fil", "fill", "filll"];
+                    let (ost, osh) = (*rng.pick(&ords), *rng.pick(&ords));
+                    parts.extend(drive_skip(w, st, sh, ost, osh, rng));
+                    let fill = |u: &str| u.replace("{R}", &reg.to_string()).replace("{C}", "\\count1").replace("{D}", "\\dimen0").replace("{S}", "\\skip0");
+                    parts.push(fill(u));
+                    // look at the result, or apply a second use to the new state
+                    parts.push(match rng.below(3) {
+                        0 => fill("\\the{R} "),
+                        1 => fill(*rng.pick(USES)),
+                        _ => "\\the\\dimen3 \\the\\skip3 \\the\\count3 ".to_string(),
+                    });
+                    out.push(parts);
+                }
+            }
+        }
+    }
+    out
+}
+
 struct C09 {
     driver_path: String,
     debug: bool,
@@ -854,7 +1040,10 @@ impl C09 {
             Outcome::Budget => {
                 o.tag("outcome:budget (not counted)");
             }
-            Outcome::Ok(_, n) => {
+            Outcome::Ok(out, n) => {
+                if self.debug {
+                    eprintln!("OUTPUT: {out:?} ({n} recovered errors)");
+                }
                 o.tag("outcome:ok");
                 if n > 0 {
                     o.tag("recovered-errors>0");
@@ -1320,6 +1509,13 @@ impl Property for C09 {
                     out.push(format!("run {mode0} {}", enc(&p)));
                     k = k.saturating_sub(step);
                 }
+            }
+        }
+        // --- extreme register states x every use, in all four modes
+        let mut r2 = rng.fork();
+        for parts in extreme_programs(&mut r2, if ctx.thorough { 4 } else { 1 }) {
+            for m in MODES {
+                out.push(format!("run {m} {}", enc_parts(&parts)));
             }
         }
         // --- every primitive once in every mode, bare / before EOF / before a brace / after \the
